@@ -14,13 +14,13 @@ CLAIMED = {
     "C04": dict(
         text="seeded search over histories on a tree of models (root, fantasies, fantasies of fantasies): predictions under settings bundles, fantasy creation in four batch patterns, failing creations (bad shapes, missing noise, failing user modules, failing deepcopy); fantasy predictions and carried caches are compared with an exact GP built from scratch on independently concatenated data, and the source is compared bit-for-bit with a snapshot taken before every creation, successful or failed.",
         ref="DESIGN.md 4.2",
-        note="trusts: from-scratch reference is the same gpytorch code; tolerance 1e-6 (1e-4 KISS-GP/WISKI); creations that raise return nothing and are only counted",
+        note="trusts: from-scratch reference is the same gpytorch code, with per-model hyper-parameters tracked by the harness; tolerance 1e-6 (1e-4 KISS-GP/WISKI, 1e-3 Lanczos regime); creations that raise return nothing and are only counted",
         tech=TECH + "seeded fantasy-tree histories with failing creations vs from-scratch reference and source snapshots",
     ),
     "C16": dict(
         text="observation loss is the injected fault: seeded histories of set-targets(NaN pattern), predict(policy), mll / expected_log_prob / log_marginal(policy), mode switches, optimiser steps and policy switches without cache reset, compared with a dense Gaussian conditional on the observed subset of the model's own prior and noise (guarded by the real code on the deleted data).",
         ref="DESIGN.md 4.3",
-        note="trusts: the 40-line dense reference in sim/m_c16.py and torch.linalg; tolerance 1e-6 widened with cond(K_oo+S_oo); Gaussian and multitask Gaussian likelihoods, exact GPs",
+        note="trusts: the 40-line dense reference in sim/m_c16.py and torch.linalg (default, RFF, multitask families; tolerance 1e-6 widened with cond(K_oo+S_oo)) and, for SGPR / KISS-GP, the real model of the same recipe built on the data with the NaN observations deleted; Gaussian, fixed-noise and multitask Gaussian likelihoods, exact GPs",
         tech=TECH + "NaN-loss injection into the target stream, seeded policy/cache histories vs dense deletion reference",
     ),
     "C17": dict(
@@ -38,7 +38,7 @@ CLAIMED = {
     "C20": dict(
         text="seeded search over well-nested programs of real with-statements over all exported settings classes with exceptions (Exception and BaseException) at block boundaries, raising constructors and failing library calls, checked after every interpreter step against a stack model over the documented defaults.",
         ref="DESIGN.md 4.6",
-        note="trusts: the table of documented defaults in sim/m_c20.py; manager objects are constructed inline at the with statement",
+        note="trusts: the table of documented defaults in sim/m_c20.py; context-manager objects are constructed inline at the with statement or ahead of it (stored, entered later, entered twice); single thread",
         tech=TECH + "seeded with-block programs with injected exceptions vs stack reference model",
     ),
 }
